@@ -422,7 +422,7 @@ def native_replay_in(crate_dir: str, items: list, target_dir: str) -> dict:
     for oid, target, modname, src in items:
         tp = os.path.join(crate_dir, target)
         s = open(tp).read()
-        marker = f"mod {modname} {{"
+        marker = f"mod {modname} {{"  # (declared `pub(crate) mod ...`)
         i = s.find(marker)
         if i < 0:
             names[oid] = []
